@@ -238,6 +238,24 @@ def c15_reap(ctx):
         out.append(ok('ORD-C15-reap', 'schedule_dormant|reap-first', 'remove_finished_threads dominates the threads lock', fn=sd.name))
     else:
         out.append(bad('ORD-C15-reap', 'schedule_dormant|reap-first', 'dead threads are not reaped before the thread table is searched', fn=sd.name))
+    # what "finished" means: the OS thread has exited, however it exited.  A flag the thread body sets after its loop is never set by a
+    # thread that a panicking job killed - exactly the threads this function exists for
+    isf = F.fn('desync::SchedulerThread::is_finished')
+    keyf = 'SchedulerThread::is_finished|reports-thread-exit'
+    if not isf:
+        out.append(undecided('ORD-C15-reap', keyf, 'SchedulerThread::is_finished not found'))
+    else:
+        jh = [bb for bb, t in isf.calls() if (t['func'].get('fn') or '').endswith('JoinHandle::is_finished')]
+        ret = render(isf.expr_of_local(0))
+        if jh and 'is_finished(' in ret:
+            out.append(ok('ORD-C15-reap', keyf, 'is_finished() is JoinHandle::is_finished() of the pool thread', fn=isf.name))
+        else:
+            # a hand-made flag is acceptable only if it is set by a destructor (which also runs while unwinding)
+            in_drop = any(f_.name.startswith('<') and ' as core::ops::drop::Drop>::drop' in f_.name and any((t['func'].get('fn') or '').endswith(('AtomicBool::store', 'AtomicBool::swap')) for _, t in f_.calls()) for f_ in F.crate_fns())
+            if in_drop:
+                out.append(undecided('ORD-C15-reap', keyf, 'is_finished() reads a hand-made flag that a destructor sets: not decided whether that destructor runs on the pool thread\'s unwinding path'))
+            else:
+                out.append(bad('ORD-C15-reap', keyf, 'is_finished() no longer reports the exit of the OS thread (JoinHandle::is_finished) but a flag set on the normal exit path (%s): a thread killed by a panicking job is never seen as finished, never reaped and never replaced' % ret[:80], fn=isf.name))
     # in remove_finished_threads: finished handles are taken out of the table under the threads lock; they are joined outside the lock
     from .rules_locks import bounded_join
     REMOVAL = ('::Vec::remove', '::Vec::swap_remove', '::Vec::drain', '::Vec::retain', '::Vec::retain_mut', '::Vec::extract_if', '::Vec::pop', '::Vec::split_off')
